@@ -271,7 +271,7 @@ Definition run_case (proj : nat) (a : val) : val :=
 (* ---------------------------------------------------------------- invariants, executably
 
    EditInv evaluates the statements of the C15/C08 theorems on the case inside the model:
-   the starting file is Coherent, the final file is Coherent, the per-operation error
+   the starting file is Coherent, the file is Coherent after every operation, the per-operation error
    flags are those of the keyed model, and the abstraction of the final typed lists is
    the keyed model's final state.  The expected answer is four times true whenever every
    operation has valid arguments and the run does not panic (the harness only emits the
@@ -302,6 +302,17 @@ Definition kstate_eqb (a b : kstate) : bool :=
   && list_eqb str_eqb (k_tool a) (k_tool b)
   && list_eqb pair_eqb (k_use a) (k_use b).
 
+(* coherence after every operation of the sequence, not only at its end *)
+Fixpoint coherent_along (ops : list op) (f : file) : bool :=
+  coherentb f &&
+  match ops with
+  | [] => true
+  | o :: r => match apply o f with
+              | ROk f' | RErr f' => coherent_along r f'
+              | RPanic => true
+              end
+  end.
+
 Definition inv_case (a : val) : val :=
   match a with
   | VL [st; VL ops] =>
@@ -311,7 +322,7 @@ Definition inv_case (a : val) : val :=
           | RunPanic k => VL [VS (B "panic"); VI (Z.of_nat k)]
           | RunOk errs f' =>
               let (k', kerrs) := krun os (abs f) [] in
-              VL [VB (coherentb f); VB (coherentb f'); VB (list_eqb Bool.eqb errs kerrs);
+              VL [VB (coherentb f); VB (coherent_along os f); VB (list_eqb Bool.eqb errs kerrs);
                   VB (kstate_eqb (abs f') k'); VB (forallb valid_args os)]
           end
       | _, _ => VBadCase
